@@ -922,7 +922,8 @@ func computeBidiOrdering(dir di.Direction, finalLine Line) {
 			basePosition = len(finalLine) - 1 - idx
 		}
 		finalLine[idx].VisualIndex = int32(basePosition)
-		if run.Direction == dir {
+		// compare the progressions only: a vertical run also carries its orientation (upright or sideways)
+		if run.Direction.Progression() == dir.Progression() {
 			if bidiStart != -1 {
 				swapVisualOrder(finalLine[bidiStart:idx])
 				bidiStart = -1
